@@ -69,6 +69,10 @@ def run(ctx):
         cal = {b.blocks[n_[1]].term.callee.short.split("::")[-1] for n_ in sl if n_[0] == "CALL" and b.blocks[n_[1]].term.callee}
         ok = bool(cal & {"get_all_node_names", "get_all_nodes"}) and not (cal & {"get_successors_map", "get_predecessors_map", "keys", "get_all_edges"})
         ctx.require(ok, "R-C10-2", "outer-loop|" + b.short, "%s starts a search from every node of the node store" % sfx.split("::")[-1], "%s enumerates its start nodes from %s: a node without an entry there (e.g. an isolated node) ends up in no component" % (sfx.split("::")[-1], sorted(cal)), loc_str(t.span))
+    # ------------------------------------------------------------------ R-C10-5
+    from graphrules import enumerate_counters_as_positions
+
+    enumerate_counters_as_positions(ctx, prog, flows, "R-C10-5", ("algorithms::components", "graph::"), "the visited flags are read for one node and set for another, so a component is emitted twice and another one never")
     # ------------------------------------------------------------------ R-C10-4
     # A search that keeps more than one "visited" structure (Tarjan-style: preorder numbers decide whether the
     # descent enters a node, the set of finished nodes decides where a new search starts) emits each node once only
